@@ -675,10 +675,219 @@ fn random_case(ch: &mut Choices<'_>, st: &mut Stats) -> CaseResult {
     history_checks(&ops, true, st)
 }
 
+// ---------------------------------------------------------------------------
+// sub-check "generated-names": names of every length (1..300 bytes), families of
+// names that differ in one byte or by one byte of length, registered through the
+// Rust builder or (mandatory fields) through the C API
+
+const NAME_LENGTHS: [usize; 30] = [1, 2, 3, 5, 6, 7, 8, 15, 16, 17, 31, 32, 33, 62, 63, 64, 65, 66, 70, 100, 126, 127, 128, 129, 130, 191, 192, 255, 256, 300];
+
+fn name_of_length(ch: &mut Choices<'_>, len: usize) -> String {
+    const START: &[u8] = b"ghijklmpqrstuvwxyz";
+    const REST: &[u8] = b"abcdefghijklmnopqrstuvwxyz0123456789_";
+    let mut s = String::new();
+    s.push(*ch.pick(START) as char);
+    let fill = *ch.pick(REST) as char;
+    while s.len() < len {
+        // dots now and then, never doubled, never last
+        if s.len() % 9 == 4 && s.len() + 1 < len && !s.ends_with('.') {
+            s.push('.');
+        } else if s.len() + 1 == len {
+            s.push(*ch.pick(REST) as char);
+        } else {
+            s.push(fill);
+        }
+    }
+    s
+}
+
+/// A neighbour of `name` that is a different identifier: one byte dropped, added or changed.
+fn neighbour(ch: &mut Choices<'_>, name: &str) -> String {
+    let mut t = name.to_string();
+    match ch.draw(5) {
+        0 if t.len() > 1 && !t[..t.len() - 1].ends_with('.') => {
+            t.pop();
+        }
+        // a C caller counting the terminator: a different name as far as the registry goes
+        4 => t.push('\0'),
+        1 => t.push('q'),
+        2 => {
+            let last = t.pop().unwrap();
+            t.push(if last == 'q' { 'r' } else { 'q' });
+        }
+        _ => t.push_str("_x"),
+    }
+    t
+}
+
+fn generated_names_case(ch: &mut Choices<'_>, st: &mut Stats) -> CaseResult {
+    #[derive(Clone, Debug)]
+    enum Kind {
+        Field(usize, bool, bool), // prim, optional, via C API
+        Function,
+    }
+    let n = ch.range(1, 8);
+    let mut names: Vec<String> = Vec::new();
+    let mut ops: Vec<(String, Kind)> = Vec::new();
+    for _ in 0..n {
+        let name = match ch.weighted(&[4, 3, 2]) {
+            0 => {
+                let len = *ch.pick(&NAME_LENGTHS);
+                name_of_length(ch, len)
+            }
+            1 if !names.is_empty() => {
+                let base = ch.pick(&names).clone();
+                neighbour(ch, &base)
+            }
+            2 if !names.is_empty() => ch.pick(&names).clone(),
+            _ => {
+                let len = 1 + ch.draw(12);
+                name_of_length(ch, len)
+            }
+        };
+        let kind = match ch.weighted(&[3, 2, 1]) {
+            0 => Kind::Field(ch.draw(4), false, ch.boolean()),
+            1 => Kind::Field(ch.draw(4), true, false),
+            _ => Kind::Function,
+        };
+        names.push(name.clone());
+        ops.push((name, kind));
+    }
+    let show = || json!({"registrations_in_order": ops.iter().map(|(n, k)| json!({"name": n, "length": n.len(), "as": format!("{k:?}")})).collect::<Vec<_>>()});
+    // model: exact name -> (is_field, position)
+    let mut held: Vec<(String, bool)> = Vec::new();
+    let mut fields: Vec<(String, usize, bool)> = Vec::new();
+    let mut functions: Vec<String> = Vec::new();
+    // the C API's builder wraps the engine's (it dereferences to it)
+    let mut b = wirefilter_ffi::wirefilter_create_scheme_builder();
+    for (i, (name, kind)) in ops.iter().enumerate() {
+        st.eval();
+        let want = held.iter().find(|(h, _)| h == name).map(|(_, f)| *f);
+        let got: Outcome = catch(|| match kind {
+            Kind::Field(p, false, true) => {
+                let ct = wirefilter_ffi::wirefilter_create_primitive_type(
+                    [wirefilter_ffi::CPrimitiveType::Bool, wirefilter_ffi::CPrimitiveType::Bytes, wirefilter_ffi::CPrimitiveType::Int, wirefilter_ffi::CPrimitiveType::Ip][*p],
+                );
+                if wirefilter_ffi::wirefilter_add_type_field_to_scheme(&mut b, name.as_ptr().cast(), name.len(), ct) {
+                    Outcome::Accepted
+                } else {
+                    // which kind holds the name is not reported by the boolean: take the model's answer
+                    match want {
+                        Some(false) => Outcome::HeldByFunction,
+                        _ => Outcome::HeldByField,
+                    }
+                }
+            }
+            Kind::Field(p, false, _) => ident_outcome(b.add_field(name, prim(*p))),
+            Kind::Field(p, true, _) => ident_outcome(b.add_optional_field(name, prim(*p))),
+            Kind::Function => ident_outcome(b.add_function(name, function_def(i % 6))),
+        })
+        .map_err(|p| Fail::new("builder-panic", format!("registration #{i} panicked: {p}"), show()))?;
+        let want_out = match want {
+            None => Outcome::Accepted,
+            Some(true) => Outcome::HeldByField,
+            Some(false) => Outcome::HeldByFunction,
+        };
+        if got != want_out {
+            let sig = match (want_out, got) {
+                (Outcome::Accepted, _) => "free-name-refused",
+                (_, Outcome::Accepted) => "taken-name-accepted",
+                _ => "wrong-holder-kind",
+            };
+            return Err(Fail::new(sig, format!("registration #{i} of {name:?} ({} bytes): engine says {got:?}, the registry says {want_out:?}", name.len()), show()));
+        }
+        if want.is_none() {
+            match kind {
+                Kind::Field(p, opt, _) => {
+                    held.push((name.clone(), true));
+                    fields.push((name.clone(), *p, *opt));
+                }
+                Kind::Function => {
+                    held.push((name.clone(), false));
+                    functions.push(name.clone());
+                }
+            }
+        } else {
+            st.class("generated-names:duplicate-refused");
+        }
+    }
+    let s = catch(|| wirefilter_ffi::wirefilter_build_scheme(b)).map_err(|p| Fail::new("builder-panic", format!("build() panicked: {p}"), show()))?;
+    let s: &Scheme = &s;
+    let fail = |sig: &str, msg: String| Err(Fail::new(sig, msg, show()));
+    // listing
+    let listed: Vec<(String, usize, Type, bool)> = s.fields().map(|f| (f.name().to_string(), f.index(), f.get_type(), f.optional())).collect();
+    let want_listed: Vec<(String, usize, Type, bool)> = fields.iter().enumerate().map(|(i, (n, p, o))| (n.clone(), i, prim(*p), *o)).collect();
+    if listed != want_listed || s.field_count() != fields.len() {
+        return fail("state-differs", format!("fields() = {listed:?}
+registry: {want_listed:?}"));
+    }
+    let listed_fn: Vec<(String, usize)> = s.functions().map(|f| (f.name().to_string(), f.index())).collect();
+    let want_fn: Vec<(String, usize)> = functions.iter().enumerate().map(|(i, n)| (n.clone(), i)).collect();
+    if listed_fn != want_fn || s.function_count() != functions.len() {
+        return fail("state-differs", format!("functions() = {listed_fn:?}
+registry: {want_fn:?}"));
+    }
+    // lookups: every registered name, and neighbours that are not registered
+    let mut probes: Vec<String> = names.clone();
+    for nm in &names {
+        probes.push(neighbour(ch, nm));
+        probes.push(nm.to_uppercase());
+        if let Some((head, _)) = nm.rsplit_once('.') {
+            probes.push(head.to_string());
+        }
+    }
+    for probe in &probes {
+        st.eval();
+        let want_f = fields.iter().position(|f| &f.0 == probe);
+        let want_fn = functions.iter().position(|f| f == probe);
+        let got_f = s.get_field(probe).ok().map(|f| f.index());
+        let got_fn = s.get_function(probe).ok().map(|f| f.index());
+        if got_f != want_f || got_fn != want_fn {
+            let sig = if want_f.is_some() || want_fn.is_some() { "registered-name-unresolved" } else { "unregistered-name-resolved" };
+            return fail(
+                sig,
+                format!("{probe:?} ({} bytes): get_field -> {got_f:?} (registry {want_f:?}), get_function -> {got_fn:?} (registry {want_fn:?})", probe.len()),
+            );
+        }
+        if probe.contains('\0') {
+            // not an identifier of the filter language: API lookups only
+            st.class("generated-names:name-with-nul");
+            continue;
+        }
+        // through the parser: `name == literal` for a field, `name() == 1` for a function
+        let lit = |p: usize| ["", "\"v\"", "1", "10.0.0.1"][p];
+        let text = match (want_f, want_fn) {
+            (Some(i), _) if fields[i].1 == 0 => probe.clone(),
+            (Some(i), _) => format!("{probe} == {}", lit(fields[i].1)),
+            (None, Some(_)) => format!("{probe}() == 1"),
+            (None, None) => format!("{probe} == 1"),
+        };
+        let parsed = catch(|| s.parse(&text).map(|_| ()).map_err(|e| e.to_string())).map_err(|p| Fail::new("parse-panic", p, show()))?;
+        match (want_f.is_some() || want_fn.is_some(), parsed) {
+            (true, Err(e)) => return fail("registered-name-unresolved", format!("{text:?} does not parse although the name is registered:\n{e}")),
+            (false, Ok(())) => return fail("unregistered-name-resolved", format!("{text:?} parses although no such name is registered")),
+            _ => {}
+        }
+    }
+    let longest = names.iter().map(|n| n.len()).max().unwrap_or(0);
+    st.class(match longest {
+        0..=31 => "generated-names:longest-below-32",
+        32..=63 => "generated-names:longest-32..63",
+        64..=127 => "generated-names:longest-64..127",
+        _ => "generated-names:longest-128+",
+    });
+    if held.len() >= 2 {
+        st.nontrivial(&ops.iter().map(|(n, k)| (n.clone(), format!("{k:?}"))).collect::<Vec<_>>());
+    }
+    st.sample("generated-names", show);
+    Ok(())
+}
+
 pub fn subs() -> Vec<Sub> {
     vec![
         Sub { name: "reduced-exhaustive", f: Box::new(reduced_case) },
         Sub { name: "random-histories", f: Box::new(random_case) },
+        Sub { name: "generated-names", f: Box::new(generated_names_case) },
     ]
 }
 
@@ -689,6 +898,7 @@ pub fn run(run: &Run) {
          each replayed against an abstract registry: outcome and holder kind of every call, then counts, order, indexes, types, optionality, get_field/get_function/get_list of the built scheme, \
          resolution of 30 probe names (pool, prefixes, extensions, case variants) through the API and through parsing `name`, `name == literal`, `name()`, with execution on hit/miss contexts, \
          and identity (clone interchangeable, identical re-build not); random-histories: sequences of length 0..=12 over 6 names x 4 types x (field, optional field, function) and lists for 7 types, state compared after every prefix; \
+         generated-names: 1..8 registrations of names 1..300 bytes long (lengths around 16/32/64/128/256, families differing in one byte or one byte of length, deliberate repeats) as field / optional field / function, mandatory fields half of the time through the C API; outcomes, listing, get_field/get_function and parsing of every registered name and of unregistered neighbours (byte dropped/added/changed, upper case, dotted prefix); \
          non-trivial = the history contains a rejected registration followed by an accepted one (distinct histories counted)"
     ));
     run.assume("no generated name begins with an operator keyword (not, any, all) - outside the property's pool");
@@ -698,5 +908,6 @@ pub fn run(run: &Run) {
     let sub = |n: &str| &*find_sub(&subs, n).unwrap().f;
     run.enumerate("reduced-exhaustive", reduced_total(max_len), &reduced_key, sub("reduced-exhaustive"));
     run.random("random-histories", run.tier.pick(100_000, 600_000), 60, sub("random-histories"));
+    run.random("generated-names", run.tier.pick(40_000, 1_500_000), 120, sub("generated-names"));
     run.note("exhaustive_subchecks", json!([format!("reduced-exhaustive (length <= {max_len})")]));
 }
